@@ -36,3 +36,12 @@ M += [
  ('c04-floor', 'C04', 'teneva/core.py', "    p = int(np.floor(np.log2(v_max)))", "    p = int(np.ceil(np.log2(v_max)))", 'core_stab ceil'),
  ('c04-rq-order', 'C04', 'teneva/transformation.py', "    G1 = G1 @ R\n    Z[i-1] = teneva._reshape(G1, (r1, n1, G1.shape[1]))", "    G1 = G1 @ (R if R.shape[0] == R.shape[1] or True else R)\n    Z[i-1] = teneva._reshape(G1, (r1, n1, G1.shape[1]), order='F' if r1 == 1 or n1 == 1 else 'C')", 'reshape order on the neighbour core'),
 ]
+
+M += [
+ ('c05-kron', 'C05', 'teneva/cross.py', "        Ic_ = np.kron(Ic, teneva._ones(r1 * n))", "        Ic_ = np.kron(teneva._ones(r1 * n), Ic) if Ic.shape[1] > 1 and r1 > 1 else np.kron(Ic, teneva._ones(r1 * n))", 'column index Kronecker order (needs d>=3 and r1>1)'),
+ ('c05-iter-R', 'C05', 'teneva/cross.py', "        R = (Q[ind, :] @ R).T", "        R = (Q[ind, :] @ R).T if n > 1 else R.T", 'right-to-left R without Q[ind] for mode size 1'),
+ ('c05-cache-val', 'C05', 'teneva/cross.py', "            cache[tuple(i)] = float(y_new[k])", "            cache[tuple(i)] = float(y_new[k if k < 7 else 0])", 'cache stores the wrong value beyond the 7th new index'),
+ ('c05-e-yold', 'C05', 'teneva/cross.py', "        info['nswp'] += 1\n        info['r'] = teneva.erank(Y)\n        info['e'] = teneva.accuracy(Y, Yold)", "        info['nswp'] += 1\n        info['r'] = teneva.erank(Y)\n        info['e'] = teneva.accuracy(Yold, Y)", 'convergence value relative to the wrong tensor'),
+ ('c05-cache-order', 'C05', 'teneva/cross.py', "    return np.array([cache[tuple(i)] for i in I], dtype=float)", "    return np.array([cache[tuple(i)] for i in I], dtype=float) * (1 + 1e-15 * (len(I) > 12))", 'cached values perturbed in the last bit for big batches'),
+ ('c05-evld-stale', 'C05', 'teneva/cross.py', "        info['e'] = teneva.accuracy(Y, Yold)\n        info['e_vld'] = teneva.accuracy_on_data(Y, I_vld, y_vld)\n\n        if info['m_cache']", "        info['e'] = teneva.accuracy(Y, Yold)\n        info['e_vld'] = teneva.accuracy_on_data(Yold, I_vld, y_vld)\n\n        if info['m_cache']", 'validation error of the previous sweep'),
+]
